@@ -173,6 +173,39 @@ def bdd_from_fn(nv, variables, fn):
     return nodes
 
 
+def redundant_topo_variant(rng, nodes, k=1, allow_false=False):
+    """a valid NON-REDUCED array denoting the same function that keeps the other structural habits of library output:
+    children are stored before parents, the root is last, every node is reachable; k redundant tests (x, c, c) are spliced
+    into edges parent -> c that skip the level x (c is never the 0 terminal unless allow_false)"""
+    nodes = list(nodes)
+    if len(nodes) < 3:
+        return nodes
+    for _ in range(k):
+        cands = []
+        for q in range(2, len(nodes)):
+            for side in (1, 2):
+                c = nodes[q][side]
+                if c == 0 and not allow_false:
+                    continue
+                lo, hi = nodes[q][0] + 1, nodes[c][0] - 1
+                if lo <= hi:
+                    cands.append((q, side, c, lo, hi))
+        if not cands:
+            break
+        q, side, c, lo, hi = rng.choice(cands)
+        x = rng.randint(lo, hi)
+        # insert the new node immediately before its parent q: indices >= q shift by one
+        new = (x, c, c)
+        out = nodes[:q] + [new]
+        for v, l, h in nodes[q:]:
+            out.append((v, l + 1 if l >= q else l, h + 1 if h >= q else h))
+        nd = list(out[q + 1])
+        nd[side] = q
+        out[q + 1] = tuple(nd)
+        nodes = out
+    return nodes
+
+
 def bdd_from_graph(nv, root, expand):
     """Canonical array (library layout: DFS post-order, high child first) of the function described by a state graph:
     expand(state) -> True | False | (var, low_state, high_state), variables increasing along edges.  Nodes are
@@ -330,13 +363,14 @@ def raw_count(nodes):
     return total
 
 
-def noncanonical_variant(rng, nodes):
+def noncanonical_variant(rng, nodes, kind=None):
     """a valid (ordered, in-range) but non-canonical array denoting the same function"""
     if len(nodes) < 3:
         return list(nodes)
     nodes = list(nodes)
     nv = nodes[0][0]
-    kind = rng.choice(["dup", "unreach", "redundant", "shuffle", "dup", "redundant"])
+    if kind is None:
+        kind = rng.choice(["dup", "unreach", "redundant", "shuffle", "dup", "redundant"])
     root = len(nodes) - 1
     if kind == "dup":
         # duplicate a decision node, redirect one parent edge to the copy; root stays last
